@@ -137,7 +137,7 @@ Definition exposes (n : node) (c : construct) : Prop :=
 
 Definition construct_of (dialect : str) (a : rexpr) : option construct :=
   match a with
-  | RCol _ | RLit _ => Some c_atom
+  | RCol _ | RLit _ => Some (atom_construct a)
   | _ => option_map fst (select dialect a)
   end.
 
@@ -215,7 +215,8 @@ Proof.
   destruct f as [|f]; [discriminate|]. cbn [translate].
   destruct a as [i|l|name args|cs].
   - intros E; inversion E; subst. exists c_atom. split; [reflexivity|]. repeat split.
-  - intros E; inversion E; subst. exists c_atom. split; [reflexivity|]. repeat split.
+  - intros E; inversion E; subst. exists (atom_construct (RLit l)). split; [reflexivity|].
+    unfold atom_construct, lit_strength. destruct (lit_is_negative l); repeat split.
   - cbn [construct_of]. destruct (select dialect (ROp name args)) as [[c ar]|] eqn:S; [|discriminate].
     destruct (map_opt _ ar); [|discriminate]. intros E; inversion E; subst. exists c. split; [reflexivity|].
     repeat split. cbn [fst snd]. apply dstr_dsubst.
